@@ -1,6 +1,7 @@
 pub mod apstress;
 pub mod c03;
 pub mod c05;
+pub mod c06;
 pub mod c10;
 pub mod c13;
 pub mod ident;
@@ -46,6 +47,7 @@ pub fn dispatch(args: &[String]) -> i32 {
         "conn" => conn::main(&a),
         "c05" => c05::main(&a),
         "c03" => c03::main(&a),
+        "c06" => c06::main(&a),
         "apstress" => apstress::main(&a),
         "c10" => c10::main(&a),
         "c13" => c13::main(&a),
